@@ -65,6 +65,9 @@ pub fn random_mult(rng: &mut Rng) -> f64 {
 }
 
 pub fn random_mode(rng: &mut Rng, kind: Kind) -> Mode {
+    if rng.chance(0.1) {
+        return Mode::Mixed;
+    }
     if kind.has_scalar() {
         *rng.pick(&[Mode::Scalar, Mode::Bar, Mode::Item])
     } else {
